@@ -463,3 +463,250 @@ Qed.
 End Abstract.
 End Instance.
 
+(* ================================================================== *)
+(* Part C: the model text of model/HP.v read at the MathComp instance   *)
+(* ================================================================== *)
+Section Model.
+Variable F : realFieldType.
+Notation O := (MCOps F).
+
+Definition vget n (t : 'cV[F]_n) (i : nat) : F := mc_get t i 0.
+
+Lemma vgetE n (t : 'cV[F]_n) (i : 'I_n) : vget t i = t i 0.
+Proof. by rewrite /vget (mc_getE t i 0). Qed.
+
+Lemma zF_0 : zF F Z0 = 0. Proof. by []. Qed.
+Lemma zF_1 : zF F (Zpos 1) = 1. Proof. by []. Qed.
+Lemma zF_m1 : zF F (Zneg 1) = -1. Proof. by []. Qed.
+Lemma zF_m2 : zF F (Zneg 2) = - 2%:R. Proof. by []. Qed.
+
+(* a sum whose terms vanish outside a duplicate-free list of indices *)
+Lemma sum_support (g : nat -> F) (n : nat) (s : seq nat) :
+  uniq s -> all (fun k => k < n)%N s -> (forall k, k \notin s -> g k = 0) ->
+  \sum_(0 <= k < n) g k = \sum_(k <- s) g k.
+Proof.
+move=> Us Hs H0.
+rewrite (bigID (mem s)) /= [X in _ + X]big1 ?addr0; last by move=> k /H0.
+rewrite -big_filter; apply: perm_big.
+apply: uniq_perm => //; first by rewrite filter_uniq // /index_iota iota_uniq.
+move=> k; rewrite mem_filter /index_iota mem_iota subn0 add0n /=.
+by case Hk: (k \in s) => //=; rewrite (allP Hs).
+Qed.
+
+(* the generated stencil of K is the second difference (1, -2, 1) *)
+Lemma hp_stencilE (k j : nat) :
+  stencil_coef hp_stencil (Z.sub (Z.of_nat k) (Z.of_nat j)) =
+  if k == j then Zpos 1 else if k == j.+1 then Zneg 2 else if k == j.+2 then Zpos 1 else Z0.
+Proof. by rewrite /hp_stencil /=; do !case: Z.eqb_spec => ?; do !case: eqP => ?; lia. Qed.
+
+Lemma hp_K_row n (t : 'cV[F]_n) (j : 'I_(n - hp_rows_less)) :
+  (hp_K O n *m t) j 0 = vget t j - 2%:R * vget t j.+1 + vget t j.+2.
+Proof.
+have Hj : (j + 2 < n)%N by have := ltn_ord j; rewrite /hp_rows_less; lia.
+rewrite mxE.
+transitivity (\sum_(0 <= k < n) zF F (stencil_coef hp_stencil (Z.sub (Z.of_nat k) (Z.of_nat j))) * vget t k).
+  by rewrite big_mkord; apply: eq_bigr => k _; rewrite /hp_K /band !mxE vgetE.
+rewrite (@sum_support _ n [:: nat_of_ord j; j.+1; j.+2]).
+- rewrite !big_cons big_nil !hp_stencilE !eqxx.
+  have -> : (j.+1 == j) = false by lia.
+  have -> : (j.+2 == j) = false by lia.
+  have -> : (j.+2 == j.+1) = false by lia.
+  by rewrite zF_1 zF_m2; ring.
+- by rewrite /= !inE; lia.
+- by rewrite /=; lia.
+- move=> k; rewrite !inE !negb_or => /andP[H1 /andP[H2 H3]].
+  by rewrite hp_stencilE (negbTE H1) (negbTE H2) (negbTE H3) zF_0 mul0r.
+Qed.
+
+Section Fixed.
+Variables (n : nat) (lam : F) (data : list (option F)) (lc cc : list (nat * F)).
+Notation k := (length lc + length cc)%N.
+Notation obsf := (fun i : 'I_n => obs_at O data i).
+Notation Kn := (hp_K O n).
+Notation Cn := (hp_C O n lc cc).
+Notation cn := (hp_c O lc cc).
+Notation y0 := (hp_y0 O n data).
+
+(* the Hodrick-Prescott objective, written out: squared deviations on the observed periods
+   plus lam times the squared second differences of the trend *)
+Definition hp_J (t : 'cV[F]_n) : F :=
+  \sum_(0 <= i < n | obs_at O data i) (val_at O data i - vget t i) ^+ 2
+  + lam * \sum_(0 <= j < n - 2) (vget t j - 2%:R * vget t j.+1 + vget t j.+2) ^+ 2.
+(* the quadratic form  d'(E + lam K'K) d *)
+Definition hp_Q (d : 'cV[F]_n) : F :=
+  \sum_(0 <= i < n | obs_at O data i) (vget d i) ^+ 2
+  + lam * \sum_(0 <= j < n - 2) (vget d j - 2%:R * vget d j.+1 + vget d j.+2) ^+ 2.
+
+Lemma hp_J_abs t : hp_J t = Jabs lam Kn obsf y0 t.
+Proof.
+rewrite /hp_J /Jabs !big_mkord; congr (_ + lam * _).
+- by apply: eq_bigr => i _; rewrite vgetE /hp_y0 mxE.
+- by apply: eq_bigr => j _; rewrite hp_K_row.
+Qed.
+
+Lemma hp_Q_abs d : hp_Q d = Qabs lam Kn obsf d.
+Proof.
+rewrite /hp_Q /Qabs !big_mkord; congr (_ + lam * _).
+- by apply: eq_bigr => i _; rewrite vgetE.
+- by apply: eq_bigr => j _; rewrite hp_K_row.
+Qed.
+
+Lemma hp_E_eq : hp_E O n data = @Eobs F n obsf.
+Proof.
+apply/matrixP => i j; rewrite /hp_E /Eobs !mxE.
+have -> : Nat.eqb i j = (i == j) by apply/idP/eqP => [/Nat.eqb_eq /val_inj|->]; rewrite ?Nat.eqb_refl.
+by case: eqP => [->|_]; case: (obs_at O data _); rewrite /= ?zF_1 ?zF_0 ?mulr1n ?mulr0n.
+Qed.
+
+Lemma hp_y0_obs : @Eobs F n obsf *m y0 = y0.
+Proof.
+apply/colP => i; rewrite EobsE /hp_y0 mxE /obs_at /val_at.
+by case: (List.nth i data None) => [v|] /=; rewrite ?mul1r ?mul0r.
+Qed.
+
+Lemma hp_M_eq : hp_M O n lam data lc cc = Mbord lam Kn obsf Cn.
+Proof.
+rewrite /hp_M hp_E_eq.
+have -> : m_fun O k k (fun _ _ => sZ O 0) = 0 :> 'M[F]_k by apply/matrixP => i j; rewrite !mxE.
+by [].
+Qed.
+
+Lemma hp_rhs_eq : hp_rhs O n data lc cc = rhsb obsf y0 cn.
+Proof. by rewrite /hp_rhs /rhsb hp_y0_obs. Qed.
+
+Section WithSolve.
+Variable solve : forall m, 'M[F]_m -> 'cV[F]_m -> 'cV[F]_m.
+(* contract of numpy.linalg.solve on the call the model makes *)
+Hypothesis solve_ok :
+  hp_M O n lam data lc cc *m solve (hp_M O n lam data lc cc) (hp_rhs O n data lc cc) = hp_rhs O n data lc cc.
+Notation tv := (hp_trend_vec O solve n lam data lc cc).
+
+(* Theorem: the returned trend meets the constraints exactly and minimises the objective
+   among all trends that meet them; the difference of objectives is the quadratic form *)
+Theorem hp_optimal :
+  0 <= lam ->
+  Cn *m tv = cn /\
+  forall t' : 'cV[F]_n, Cn *m t' = cn ->
+    hp_J t' - hp_J tv = hp_Q (t' - tv) /\ 0 <= hp_Q (t' - tv) /\ hp_J tv <= hp_J t'.
+Proof.
+move=> Hl; rewrite /hp_trend_vec; move: solve_ok; rewrite hp_M_eq hp_rhs_eq => Hs.
+have [H1 H2] := hp_optimal_abs Hl Hs; split; first exact: H1.
+by move=> t' Ht'; rewrite !hp_J_abs hp_Q_abs; exact: H2.
+Qed.
+
+(* Theorem: with an invertible bordered matrix the returned trend is the unique minimiser *)
+Theorem hp_unique :
+  0 < lam -> hp_M O n lam data lc cc \in unitmx ->
+  forall t' : 'cV[F]_n, Cn *m t' = cn -> hp_J t' <= hp_J tv -> t' = tv.
+Proof.
+move=> Hl; rewrite /hp_trend_vec; move: solve_ok; rewrite hp_M_eq hp_rhs_eq => Hs Hu t' Ht'.
+by rewrite !hp_J_abs; exact: (hp_unique_abs Hl Hu Hs).
+Qed.
+
+(* trend + gap = data on observed rows; the gap is missing exactly where the data are *)
+Theorem hp_trend_plus_gap (i : nat) :
+  match hp_gap O solve n lam data lc cc i with
+  | Some g => List.nth i data None = Some (hp_trend O solve n lam data lc cc i + g)
+  | None => List.nth i data None = None
+  end.
+Proof.
+rewrite /hp_gap /obs_at /val_at; case: (List.nth i data None) => [v|] //=.
+by congr Some; ring.
+Qed.
+
+End WithSolve.
+
+(* ---- second differences: kernel = affine sequences ---- *)
+Lemma second_diff_affine (d : 'cV[F]_n) :
+  Kn *m d = 0 ->
+  forall i, (i < n)%N -> vget d i = vget d 0 + i%:R * (vget d 1 - vget d 0).
+Proof.
+move=> Kd; elim/ltn_ind => [[|[|i]]] IH Hi.
+- by rewrite mul0r addr0.
+- by rewrite mul1r; ring.
+- have Hj : (i < n - hp_rows_less)%N by rewrite /hp_rows_less; lia.
+  have := hp_K_row d (Ordinal Hj); rewrite Kd mxE /=.
+  rewrite (IH i) ?(IH i.+1) //; try lia.
+  move=> /eqP; rewrite eq_sym addrC addr_eq0 => /eqP ->.
+  rewrite -[i.+2]addn2 -[i.+1]addn1 !natrD; ring.
+Qed.
+
+Lemma affine_second_diff (a b : F) (t : 'cV[F]_n) :
+  (forall i, (i < n)%N -> vget t i = a + b * i%:R) -> Kn *m t = 0.
+Proof.
+move=> Ht; apply/colP => j; rewrite hp_K_row mxE.
+have Hj : (j + 2 < n)%N by have := ltn_ord j; rewrite /hp_rows_less; lia.
+have H0 : (j < n)%N by lia.
+have H1 : (j.+1 < n)%N by lia.
+have H2 : (j.+2 < n)%N by lia.
+rewrite (Ht _ H0) (Ht _ H1) (Ht _ H2).
+have -> : (j.+1)%:R = (j%:R + 1 : F) by rewrite -addn1 natrD.
+have -> : (j.+2)%:R = (j%:R + 2%:R : F) by rewrite -addn2 natrD.
+move: (j%:R : F) => x; ring.
+Qed.
+
+(* two observations pin an affine sequence down *)
+Lemma kernel_trivial (d : 'cV[F]_n) (i1 i2 : nat) :
+  (i1 < i2 < n)%N -> obs_at O data i1 -> obs_at O data i2 ->
+  @Eobs F n obsf *m d = 0 -> Kn *m d = 0 -> d = 0.
+Proof.
+move=> /andP[H12 H2n] O1 O2 Ed Kd.
+have H1n : (i1 < n)%N by lia.
+have Z1 : vget d i1 = 0.
+  have := congr1 (fun A : 'cV[F]_n => A (Ordinal H1n) 0) Ed.
+  by rewrite EobsE /= O1 mul1r mxE -(vgetE d (Ordinal H1n)).
+have Z2 : vget d i2 = 0.
+  have := congr1 (fun A : 'cV[F]_n => A (Ordinal H2n) 0) Ed.
+  by rewrite EobsE /= O2 mul1r mxE -(vgetE d (Ordinal H2n)).
+have A := second_diff_affine Kd.
+move: (A i1 H1n) (A i2 H2n); rewrite Z1 Z2.
+set a := vget d 0; set b := vget d 1 - vget d 0 => E1 E2.
+have Hb : b = 0.
+  have Hx : (i2%:R - i1%:R) * b = 0.
+    have -> : (i2%:R - i1%:R) * b = (a + i2%:R * b) - (a + i1%:R * b).
+      by move: (i1%:R : F) (i2%:R : F) => x1 x2; ring.
+    by rewrite -E1 -E2 subrr.
+  move/eqP: Hx; rewrite mulf_eq0 subr_eq0 eqr_nat => /orP[|/eqP //].
+  by rewrite eqn_leq leqNgt H12.
+have Ha : a = 0 by move: E1; rewrite Hb mulr0 addr0.
+apply/colP => i; rewrite mxE -vgetE (A i (ltn_ord i)) -/a -/b Ha Hb; ring.
+Qed.
+
+(* Theorem: lam > 0, two observations, independent constraint rows => the bordered matrix is invertible *)
+Theorem hp_wellposed (i1 i2 : nat) :
+  0 < lam -> (i1 < i2 < n)%N -> obs_at O data i1 -> obs_at O data i2 ->
+  (forall mu : 'cV[F]_k, Cn^T *m mu = 0 -> mu = 0) ->
+  hp_M O n lam data lc cc \in unitmx.
+Proof.
+move=> Hl Hi O1 O2 Hrank; rewrite hp_M_eq; apply: hp_wellposed_abs => // d Ed Kd _.
+exact: (kernel_trivial Hi O1 O2 Ed Kd).
+Qed.
+
+(* Theorem: observed data on a straight line (with or without gaps), constraints consistent with the
+   line: the line itself is returned, also on the missing periods *)
+Theorem hp_line_invariant (solve : forall m, 'M[F]_m -> 'cV[F]_m -> 'cV[F]_m) (a b : F) :
+  let line := (\col_(i < n) (a + b * i%:R)) : 'cV[F]_n in
+  (forall i, (i < n)%N -> obs_at O data i -> val_at O data i = a + b * i%:R) ->
+  Cn *m line = cn ->
+  hp_M O n lam data lc cc \in unitmx ->
+  hp_M O n lam data lc cc *m solve _ (hp_M O n lam data lc cc) (hp_rhs O n data lc cc) = hp_rhs O n data lc cc ->
+  hp_trend_vec O solve n lam data lc cc = line.
+Proof.
+move=> line Hdata Hc Hu Hs.
+have Kl : Kn *m line = 0.
+  by apply: (@affine_second_diff a b) => i Hi; rewrite (vgetE line (Ordinal Hi)) mxE.
+have El : @Eobs F n obsf *m line = @Eobs F n obsf *m y0.
+  apply/colP => i; rewrite !EobsE /hp_y0 !mxE.
+  case Ho: (obs_at O data i); last by rewrite !mul0r.
+  by rewrite (Hdata i (ltn_ord i) Ho).
+have Hline : hp_M O n lam data lc cc *m col_mx line 0 = hp_rhs O n data lc cc.
+  rewrite hp_M_eq hp_rhs_eq /Mbord /rhsb mul_block_col !mulmx0 !addr0 Hc mulmxDl El.
+  by rewrite /Fmat -scalemxAl -mulmxA Kl mulmx0 scaler0 add0r.
+rewrite /hp_trend_vec /=.
+have -> : solve _ (hp_M O n lam data lc cc) (hp_rhs O n data lc cc) = col_mx line 0.
+  by rewrite -[LHS](mulKmx Hu) Hs -Hline mulKmx.
+by rewrite col_mxKu.
+Qed.
+
+End Fixed.
+End Model.
